@@ -136,6 +136,7 @@ type env struct {
 	started          bool
 	peerNoRead       bool // odd-numbered peer links never read what the node writes
 	peerAPHeartbeats bool // peers also send ArduPilot heartbeats from fresh identities
+	slowLinks        bool // stream peers now and then pause mid-frame for longer than the node's idle timeout
 }
 
 // newEnv makes the world; endpoints are added with addEndpoint before startNode.
